@@ -127,7 +127,7 @@ func v0HasEmptyPath(p *pset.Pset) bool {
 // v0Compare reports the first field of `before` that `after` does not carry. The site ids are
 // stable: they name the clause of the property (field class), the detail names the mechanism
 // when the oracle can tell it.
-func v0Compare(before []v0Field, orig *pset.Pset, after *pset.Pset) string {
+func v0Compare(before []v0Field, orig *pset.Pset, after *pset.Pset, roles bool) string {
 	fa := v0Fields(after)
 	if len(fa) != len(before) {
 		return fail("counts", "sections-differ")
@@ -154,6 +154,11 @@ func v0Compare(before []v0Field, orig *pset.Pset, after *pset.Pset) string {
 			fin := in.FinalScriptSig != nil || in.FinalScriptWitness != nil
 			switch cls {
 			case "in.partialsigs", "in.sighashtype", "in.redeemscript", "in.witnessscript", "in.bip32":
+				if fin && roles {
+					// the packet was built through creator/updater/signer/finalizer only: the
+					// finalizer clears the signing fields, so nothing can be lost here
+					return fail("in.finalized.roles", "finalizer-left-a-field-the-writer-skips/"+cls)
+				}
 				if fin {
 					return fail("in.finalized", "signing-fields-dropped/"+cls)
 				}
@@ -223,7 +228,7 @@ func checkC08V0(t *Toks) string {
 	}); r != "" {
 		return r
 	}
-	if r := v0Compare(before, orig, q); r != "" {
+	if r := v0Compare(before, orig, q, tag == "api"); r != "" {
 		return r
 	}
 	// the re-encoding of what was parsed is the same byte string
@@ -297,13 +302,48 @@ func checkC08V0Raw(t *Toks) string {
 	if skip != "" {
 		return skip
 	}
-	if r := v0Compare(before, orig, q); r != "" {
+	if r := v0Compare(before, orig, q, false); r != "" {
 		return r
 	}
 	return "OK accepted"
 }
 
+// C08 on the finalizer's output: the packet Finalize leaves round-trips every field (nothing is
+// kept in memory that the writer skips).
+func checkC08V0Fin(t *Toks) string {
+	idx := t.Int()
+	v0ReadOpt(t)
+	v0ReadOpt(t)
+	p := v0ReadPset(t)
+	if r := v0Guard("finalize", func() string {
+		if err := pset.Finalize(p, idx); err != nil {
+			return "SKIP not-finalizable"
+		}
+		return ""
+	}); r != "" {
+		return r
+	}
+	if !v0WfCore(p, true) || !v0WuFloor(p) {
+		return "SKIP outside-wire-domain"
+	}
+	before := v0Fields(p)
+	orig := v0Clone(p)
+	bs, st := v0Serialize(p)
+	if st != "ok" {
+		return fail("serialize", st)
+	}
+	q, st := v0Parse(bs)
+	if st != "ok" {
+		return fail("roundtrip.reject", "own-serialization/finalized")
+	}
+	if r := v0Compare(before, orig, q, true); r != "" {
+		return r
+	}
+	return "OK finalized"
+}
+
 func init() {
+	checks["C08/v0fin"] = checkC08V0Fin
 	checks["C08/v0"] = checkC08V0
 	checks["C08/v0raw"] = checkC08V0Raw
 }
